@@ -80,6 +80,21 @@ def temp_handle(case, d):
             gc.collect(); look('first key set')
             cls(path, accessmode='r+').metadata.pop('fs')
             gc.collect(); look('last key popped')
+        elif case['how'] == 'failing_update':
+            # a metadata update that cannot be serialised fails; the length changes afterwards
+            h = cls(path, accessmode='r+')
+            for bad in ({'s': {1, 2}}, {'b': b'\xff\xfe'}, {'o': object()}):
+                try:
+                    h.metadata.update(bad)
+                    out.append(dict(step='error', error='unserialisable metadata accepted'))
+                except Exception:
+                    pass
+                look('after a refused update')
+            if ragged:
+                h.append([9.5])
+            else:
+                h.append(np.zeros((1, 2), dtype='int32'))
+            look('appended after the refused updates')
         elif case['how'] == 'meta_rplus':
             # a read-only handle whose metadata object alone was switched to 'r+'
             h = cls(path, accessmode='r')
